@@ -82,7 +82,7 @@ func (s *BarGraph) WriteBar(idx int, key string, vals ...int64) {
 	{
 		var max int64
 		if s.Stacked {
-			max = sumi64(vals...)
+			max = sumPositive(vals...)
 		} else {
 			max = maxi64(vals...)
 		}
@@ -114,6 +114,17 @@ func maxi64(vals ...int64) (ret int64) {
 func sumi64(vals ...int64) (ret int64) {
 	for _, v := range vals {
 		ret += v
+	}
+	return
+}
+
+// sum of what a stacked bar draws: negative segments draw nothing, so they
+// must not shorten the scale the drawn segments are measured against
+func sumPositive(vals ...int64) (ret int64) {
+	for _, v := range vals {
+		if v > 0 {
+			ret += v
+		}
 	}
 	return
 }
@@ -164,8 +175,8 @@ func (s *BarGraph) writeBarStacked(idx int, key string, vals ...int64) {
 		total += val
 	}
 
-	if total > s.maxLineVal {
-		s.maxLineVal = total
+	if drawn := sumPositive(vals...); drawn > s.maxLineVal {
+		s.maxLineVal = drawn
 	}
 
 	var sb strings.Builder
